@@ -382,6 +382,9 @@ theorem term_main_step (ctx : TermCtx H W root) (sp : Pos) (rl : Bool) (fuel : N
                     · split
                       · exact TermOut_err (by decide)
                       · exact ⟨rfl, trivial⟩
+                    · split     -- `'..'` surfaced to the root (fix C04-g)
+                      · exact ⟨rfl, trivial⟩
+                      · exact TermOut_err (by decide)
                     · exact TermOut_err (by decide)
                     · exact TermOut_err (by decide)
           · simp only [hup, if_false] at hfuel
